@@ -1,6 +1,7 @@
 (* StateTree/Embeds.v — the "survivors" clause: layouts related by deleting subtrees *)
 From Coq Require Import List NArith Bool Lia Arith Sorted Permutation.
-From Mimium Require Import Tables.StateTreeConsts StateTree.Model StateTree.Lemmas StateTree.Lcs.
+From Mimium Require Import Tables.StateTreeConsts StateTree.Model StateTree.Lemmas StateTree.Lcs
+  StateTree.Apply.
 Import ListNotations.
 Local Open Scope N_scope.
 
@@ -13,76 +14,11 @@ with embeds_list : list skel -> list skel -> Prop :=
 | el_skip : forall ns o os, embeds_list ns os -> embeds_list ns (o :: os)
 | el_keep : forall n o ns os, embeds n o -> embeds_list ns os -> embeds_list (n :: ns) (o :: os).
 
-Definition is_leaf (s : skel) : Prop := match s with FnCall _ => False | _ => True end.
+Scheme embeds_mind := Minimality for embeds Sort Prop
+  with embeds_list_mind := Minimality for embeds_list Sort Prop.
 
-(* ---- the clause is false of the code as it stands (finding F1) ---- *)
-
-Lemma survivors_refuted :
-  exists o n : skel, embeds n o /\
-    exists total ps, plan o n = Some (total, ps) /\ sumN (map p_sz ps) < size n.
-Proof.
-  exists (FnCall [FnCall [Mem 1; Feed 1; Mem 1]; FnCall [Mem 1; Delay 1]]),
-         (FnCall [FnCall [Mem 1; Feed 1; Mem 1]]).
-  split.
-  - apply emb_call. apply el_keep; [apply emb_eq|]. apply el_skip. apply el_nil.
-  - eexists _, _. split; [vm_compute; reflexivity|]. vm_compute. reflexivity.
-Qed.
-
-(* ---- plain subsequences (what embeds_list means between lists of leaves) ---- *)
-
-Inductive subseq : list skel -> list skel -> Prop :=
-| ss_nil : subseq [] []
-| ss_skip : forall a y b, subseq a b -> subseq a (y :: b)
-| ss_keep : forall x a b, subseq a b -> subseq (x :: a) (x :: b).
-
-Lemma subseq_refl : forall a, subseq a a.
-Proof. induction a; [apply ss_nil|apply ss_keep; auto]. Qed.
-
-Lemma subseq_nil_l : forall b, subseq [] b.
-Proof. induction b; constructor; auto. Qed.
-
-Lemma subseq_cons_l : forall x a b, subseq (x :: a) b -> subseq a b.
-Proof.
-  intros x a b H. remember (x :: a) as xa eqn:E. revert x a E.
-  induction H as [|a' y b H IH|x' a' b H IH]; intros x a E; try discriminate.
-  - apply ss_skip. eapply IH; eauto.
-  - injection E as -> ->. apply ss_skip. exact H.
-Qed.
-
-Lemma subseq_app : forall a b c d, subseq a b -> subseq c d -> subseq (a ++ c) (b ++ d).
-Proof.
-  intros a b c d H1 H2. induction H1; cbn [app]; auto; [apply ss_skip|apply ss_keep]; auto.
-Qed.
-
-Lemma subseq_rev : forall a b, subseq a b -> subseq (rev a) (rev b).
-Proof.
-  intros a b H. induction H as [|a y b H IH|x a b H IH]; cbn [rev].
-  - constructor.
-  - rewrite <- (app_nil_r (rev a)). apply subseq_app; auto. apply subseq_nil_l.
-  - apply subseq_app; auto. apply subseq_refl.
-Qed.
-
-Lemma embeds_leaf_r : forall n o, is_leaf o -> embeds n o -> n = o.
-Proof. intros n o L H. inversion H; subst; auto. contradiction. Qed.
-
-Lemma embeds_list_subseq : forall ns os,
-  Forall is_leaf os -> embeds_list ns os -> subseq ns os.
-Proof.
-  intros ns os L H. induction H as [|ns o os H IH|n o ns os Hn H IH].
-  - apply ss_nil.
-  - inversion L; subst. apply ss_skip; auto.
-  - inversion L; subst. apply embeds_leaf_r in Hn; auto. subst. apply ss_keep; auto.
-Qed.
-
-Lemma embeds_call_subseq : forall ns os,
-  Forall is_leaf os -> embeds (FnCall ns) (FnCall os) -> subseq ns os.
-Proof.
-  intros ns os L H. inversion H; subst.
-  - apply subseq_refl.
-  - apply embeds_list_subseq; auto.
-Qed.
-
-(* ---- sums ---- *)
+(* ------------------------------------------------------------------ *)
+(* sums and prefix sums                                                *)
 
 Lemma sumN_cons : forall x l, sumN (x :: l) = x + sumN l.
 Proof. reflexivity. Qed.
@@ -94,39 +30,229 @@ Proof.
   - rewrite IH. rewrite N.add_assoc. reflexivity.
 Qed.
 
-Lemma sum_size_rev : forall l, sumN (map size (rev l)) = sumN (map size l).
+Lemma sumN_zero : forall l, sumN l = 0 -> forall x, In x l -> x = 0.
 Proof.
-  induction l as [|x l IH]; [reflexivity|].
-  cbn [rev]. rewrite map_app, sumN_app, IH.
-  change (sumN (map size [x])) with (size x + 0).
-  change (sumN (map size (x :: l))) with (size x + sumN (map size l)). lia.
+  induction l as [|y l IH]; intros H x []; rewrite sumN_cons in H.
+  - subst. lia.
+  - apply IH; auto. lia.
 Qed.
 
-Lemma sum_nodup_sorted : forall l, StronglySorted before l ->
-  sumN (map p_sz (nodup patch_eq_dec l)) = sumN (map p_sz l).
+Definition pre (l : list N) (i : nat) : N := sumN (firstn i l).
+
+Lemma pre_0 : forall l, pre l 0 = 0.
+Proof. reflexivity. Qed.
+
+Lemma pre_cons_S : forall x l i, pre (x :: l) (S i) = x + pre l i.
+Proof. reflexivity. Qed.
+
+Lemma pre_step : forall l i, pre l (S i) = pre l i + nth i l 0.
 Proof.
-  intros l H. induction H as [|a l H IH HF]; [reflexivity|].
-  cbn [nodup]. destruct (in_dec patch_eq_dec a l) as [Hin|Hn].
-  - rewrite Forall_forall in HF. destruct (HF a Hin) as [B1 _].
-    rewrite IH. cbn [map]. rewrite sumN_cons. lia.
-  - cbn [map]. rewrite !sumN_cons, IH. reflexivity.
+  induction l as [|x l IH]; intros i.
+  - destruct i; reflexivity.
+  - destruct i as [|i].
+    + rewrite pre_cons_S, !pre_0. cbn [nth]. lia.
+    + rewrite !pre_cons_S, IH. cbn [nth]. lia.
 Qed.
 
-(* ---- tables of leaves ---- *)
-
-Lemma leaf_bp : forall o n so dn, is_leaf o ->
-  bp o n so dn = if nodes_match o n then [mkPatch so dn (size o)] else [].
+Lemma pre_mono : forall l i i', (i <= i')%nat -> pre l i <= pre l i'.
 Proof.
-  intros o n so dn L. rewrite bp_unfold. destruct (nodes_match o n); auto.
-  destruct o; auto. contradiction.
+  intros l i i' H. induction H as [|k _ IH]; [lia|]. rewrite pre_step. lia.
+Qed.
+
+Lemma pre_total : forall l i, pre l i <= sumN l.
+Proof.
+  induction l as [|x l IH]; intros [|i]; try (rewrite pre_0; lia).
+  - cbn. lia.
+  - rewrite pre_cons_S, sumN_cons. specialize (IH i). lia.
+Qed.
+
+Lemma offs_pre : forall l i, offs l i = pre (map size l) i.
+Proof. intros. unfold offs, pre. now rewrite firstn_map. Qed.
+
+Lemma pre_locate : forall l x, x < sumN l ->
+  exists j, (j < length l)%nat /\ pre l j <= x < pre l (S j).
+Proof.
+  induction l as [|y l IH]; intros x H.
+  - cbn in H. lia.
+  - rewrite sumN_cons in H. destruct (N.lt_ge_cases x y) as [L|L].
+    + exists O. rewrite pre_cons_S, !pre_0. cbn [length]. split; lia.
+    + destruct (IH (x - y)) as (j & Hj & B); [lia|].
+      exists (S j). rewrite !pre_cons_S. cbn [length]. split; lia.
+Qed.
+
+Lemma nth_map_in : forall (A B : Type) (f : A -> B) l j d d', (j < length l)%nat ->
+  nth j (map f l) d' = f (nth j l d).
+Proof.
+  intros A B f l j d d' H. rewrite (nth_indep _ d' (f d)) by (now rewrite map_length).
+  apply map_nth.
+Qed.
+
+(* ------------------------------------------------------------------ *)
+(* a strictly increasing family of weighted picks that reaches the     *)
+(* total must pick every non-zero entry at full weight                 *)
+
+Section Tight.
+  Variables (pr : nat * nat -> nat) (w : nat * nat -> N) (vs : list N).
+
+  Definition wsum (cs : list (nat * nat)) : N := sumN (map w cs).
+
+  Lemma tight : forall cs k,
+    StronglySorted (fun a b => (pr a < pr b)%nat) cs ->
+    (forall c, In c cs -> (k <= pr c)%nat /\ w c <= nth (pr c) vs 0) ->
+    wsum cs + pre vs k <= sumN vs /\
+    (wsum cs + pre vs k = sumN vs ->
+       (forall c, In c cs -> w c = nth (pr c) vs 0) /\
+       (forall j, (k <= j)%nat -> (forall c, In c cs -> pr c <> j) -> nth j vs 0 = 0)).
+  Proof.
+    intros cs k HS. revert k.
+    induction HS as [|c cs HS IH HF]; intros k HC.
+    - unfold wsum. cbn [map]. change (sumN []) with 0.
+      pose proof (pre_total vs k). split; [lia|].
+      intros E. split; [intros c []|].
+      intros j Hj _.
+      pose proof (pre_mono vs k j Hj). pose proof (pre_total vs (S j)).
+      rewrite pre_step in *. lia.
+    - rewrite Forall_forall in HF.
+      destruct (HC c (or_introl eq_refl)) as [Kc Wc].
+      destruct (IH (S (pr c))) as [IH1 IH2].
+      { intros c' Hc'. destruct (HC c' (or_intror Hc')) as [_ W']. split; auto.
+        apply HF in Hc'. lia. }
+      unfold wsum in *. cbn [map]. rewrite sumN_cons.
+      pose proof (pre_mono vs k (pr c) Kc) as M. rewrite pre_step in IH1, IH2.
+      split; [lia|].
+      intros E. destruct IH2 as [I1 I2]; [lia|].
+      split.
+      + intros c' [<-|Hc']; [lia|auto].
+      + intros j Hj Hn.
+        destruct (Nat.lt_trichotomy j (pr c)) as [L|[L|L]].
+        * pose proof (pre_mono vs k j Hj). pose proof (pre_mono vs (S j) (pr c) L).
+          rewrite pre_step in *. lia.
+        * exfalso. apply (Hn c); auto. now left.
+        * apply I2; [lia|]. intros c' Hc'. apply Hn. now right.
+  Qed.
+
+  Lemma pr_dec : forall cs j,
+    (exists c, In c cs /\ pr c = j) \/ (forall c, In c cs -> pr c <> j).
+  Proof.
+    induction cs as [|c cs IH]; intros j.
+    - right. intros c [].
+    - destruct (Nat.eq_dec (pr c) j) as [E|E].
+      + left. exists c. split; [now left|assumption].
+      + destruct (IH j) as [(c' & Hc' & E')|Hn].
+        * left. exists c'. split; [now right|assumption].
+        * right. intros c' [<-|Hc']; auto.
+  Qed.
+
+  (* szs: the word sizes of the same entries; entries without cells have no words *)
+  Lemma tight_locate : forall cs (szs : list N),
+    StronglySorted (fun a b => (pr a < pr b)%nat) cs ->
+    (forall c, In c cs -> w c <= nth (pr c) vs 0) ->
+    wsum cs = sumN vs ->
+    (forall j, nth j vs 0 = 0 -> nth j szs 0 = 0) ->
+    forall x, x < sumN szs ->
+    exists c, In c cs /\ w c = nth (pr c) vs 0 /\ nth (pr c) vs 0 <> 0 /\
+              pre szs (pr c) <= x < pre szs (S (pr c)).
+  Proof.
+    intros cs szs HS HW E HZ x Hx.
+    destruct (tight cs O HS) as [_ T].
+    { intros c Hc. split; [lia|auto]. }
+    destruct T as [T1 T2]; [rewrite pre_0; lia|].
+    destruct (pre_locate szs x Hx) as (j & Hj & B).
+    assert (NZ : nth j vs 0 <> 0).
+    { intros Z. apply HZ in Z. rewrite pre_step in B. lia. }
+    destruct (pr_dec cs j) as [(c & Hc & <-)|Hn].
+    - exists c. repeat split; auto; lia.
+    - exfalso. apply NZ. apply T2; [lia|assumption].
+  Qed.
+End Tight.
+
+Lemma SSorted_impl : forall (A : Type) (R R' : A -> A -> Prop) l,
+  (forall a b, R a b -> R' a b) -> StronglySorted R l -> StronglySorted R' l.
+Proof.
+  intros A R R' l H HS. induction HS as [|a l HS IH HF]; constructor; auto.
+  eapply Forall_impl; [|exact HF]. auto.
+Qed.
+
+(* ------------------------------------------------------------------ *)
+(* sorted patches: covering an interval  <->  carrying its length      *)
+
+Section Intervals.
+  Variable st : patch -> N.
+  Hypothesis Hb : forall p q, before p q -> st p + p_sz p <= st q.
+
+  Definition cov (ps : list patch) (i : N) : Prop :=
+    exists p, In p ps /\ st p <= i < st p + p_sz p.
+
+  Lemma sum_le_range : forall l lo hi, StronglySorted before l -> lo <= hi ->
+    (forall p, In p l -> lo <= st p /\ st p + p_sz p <= hi) ->
+    sumN (map p_sz l) + lo <= hi.
+  Proof.
+    intros l lo hi HS. revert lo. induction HS as [|a l HS IH HF]; intros lo Hlo HI.
+    - cbn. lia.
+    - cbn [map]. rewrite sumN_cons. rewrite Forall_forall in HF.
+      destruct (HI a (or_introl eq_refl)) as [A1 A2].
+      specialize (IH (st a + p_sz a) A2).
+      assert (sumN (map p_sz l) + (st a + p_sz a) <= hi); [|lia].
+      apply IH. intros p Hp. destruct (HI p (or_intror Hp)) as [_ P2].
+      split; auto.
+  Qed.
+
+  Lemma sum_ge_cover : forall l lo hi, StronglySorted before l ->
+    (forall i, lo <= i < hi -> cov l i) ->
+    hi <= sumN (map p_sz l) + lo.
+  Proof.
+    intros l lo hi HS. revert lo. induction HS as [|a l HS IH HF]; intros lo HC.
+    - destruct (N.le_gt_cases hi lo) as [|L]; [cbn; lia|].
+      destruct (HC lo ltac:(lia)) as (p & [] & _).
+    - cbn [map]. rewrite sumN_cons. rewrite Forall_forall in HF.
+      destruct (N.le_gt_cases hi lo) as [|L]; [lia|].
+      destruct (HC lo ltac:(lia)) as (p & [<-|Hp] & Cp).
+      + assert (hi <= sumN (map p_sz l) + (st a + p_sz a)); [|lia].
+        apply IH. intros i Hi. destruct (HC i ltac:(lia)) as (q & [<-|Hq] & Cq); [lia|].
+        exists q. auto.
+      + pose proof (Hb a p (HF p Hp)).
+        assert (hi <= sumN (map p_sz l) + lo); [|lia].
+        apply IH. intros i Hi. destruct (HC i Hi) as (q & [<-|Hq] & Cq); [lia|].
+        exists q. auto.
+  Qed.
+End Intervals.
+
+(* ------------------------------------------------------------------ *)
+(* cells and words                                                     *)
+
+Lemma count_cells_FnCall : forall cs, count_cells (FnCall cs) = sumN (map count_cells cs).
+Proof. reflexivity. Qed.
+
+Lemma cells_zero_size : forall s, count_cells s = 0 -> size s = 0.
+Proof.
+  induction s as [l|x|x|cs IH] using skel_ind'; intros H; try discriminate.
+  rewrite count_cells_FnCall in H. rewrite size_FnCall.
+  induction IH as [|c cs Hc _ IHcs]; [reflexivity|].
+  cbn [map] in *. rewrite sumN_cons in *.
+  rewrite Hc by lia. rewrite IHcs by lia. reflexivity.
 Qed.
 
 Lemma score_at_table : forall T i j,
-  score_at (map (map score_of) T) i j = score_of (table_at T i j).
+  score_at (map (map snd) T) i j = snd (table_at T i j).
 Proof.
   intros T i j. unfold score_at, table_at.
-  change (@nil N) with (map score_of []). rewrite map_nth.
-  change 0 with (score_of []). rewrite map_nth. reflexivity.
+  change (@nil N) with (map (@snd (list patch) N) []). rewrite map_nth.
+  change 0 with (snd (@nil patch, 0)). rewrite map_nth. reflexivity.
+Qed.
+
+Lemma collect_cells_csum : forall T rs,
+  collect_cells T rs = csum (map (map snd) T) rs.
+Proof.
+  intros T rs. induction rs as [|[i j|i|j] rs IH]; cbn [collect_cells csum]; auto.
+  now rewrite IH, score_at_table.
+Qed.
+
+Lemma collect_cells_commons : forall T rs,
+  collect_cells T rs = wsum (fun c => snd (table_at T (fst c) (snd c))) (commons rs).
+Proof.
+  intros T rs. unfold wsum.
+  induction rs as [|[i j|i|j] rs IH]; cbn [collect_cells commons map fst snd]; auto.
+  now rewrite sumN_cons, IH.
 Qed.
 
 Lemma rows_of_row_length : forall f ncs dn os so,
@@ -138,302 +264,293 @@ Proof.
 Qed.
 
 Lemma scores_row_length : forall os ns so dn,
-  Forall (fun r => length r = length ns) (map (map score_of) (mk_table os ns so dn)).
+  Forall (fun r => length r = length ns) (map (map snd) (mk_table os ns so dn)).
 Proof.
   intros. apply Forall_map. eapply Forall_impl; [|apply rows_of_row_length].
   cbn beta. intros r Hr. now rewrite map_length.
 Qed.
 
 Lemma scores_length : forall os ns so dn,
-  length (map (map score_of) (mk_table os ns so dn)) = length os.
+  length (map (map snd) (mk_table os ns so dn)) = length os.
 Proof. intros. rewrite map_length. apply rows_of_length. Qed.
 
-Lemma nth_mid : forall (ro : list skel) x oss d, nth (length ro) (rev ro ++ x :: oss) d = x.
+Lemma In_collect : forall T rs c p,
+  In c (commons rs) -> In p (fst (table_at T (fst c) (snd c))) -> In p (collect T rs).
 Proof.
-  intros. rewrite app_nth2 by (rewrite rev_length; lia).
-  rewrite rev_length, Nat.sub_diag. reflexivity.
+  intros T rs c p Hc Hp. rewrite collect_commons. apply in_flat_map. eauto.
 Qed.
 
-Lemma nth_split : forall (l ro : list skel) x oss d,
-  l = rev ro ++ x :: oss -> nth (length ro) l d = x.
-Proof. intros l ro x oss d ->. apply nth_mid. Qed.
+(* ------------------------------------------------------------------ *)
+(* the carried-cell count of bp: upper bounds, and what equality means *)
 
-Section Flat.
-  Variables (os ns : list skel) (so dn : N).
-  Hypothesis Hos : Forall is_leaf os.
+Definition cells_ok (o : skel) : Prop :=
+  forall n so dn,
+    snd (bp o n so dn) <= count_cells o /\
+    snd (bp o n so dn) <= count_cells n /\
+    (snd (bp o n so dn) = count_cells n ->
+       forall i, dn <= i < dn + size n -> cov p_dst (fst (bp o n so dn)) i) /\
+    (snd (bp o n so dn) = count_cells o ->
+       forall i, so <= i < so + size o -> cov p_src (fst (bp o n so dn)) i).
 
-  Local Notation T := (mk_table os ns so dn).
-  Local Notation scores := (map (map score_of) T).
-  Local Notation dp := (dp_table (length ns) scores).
+Lemma cells_ok_nil : forall o n so dn,
+  count_cells o = 1 \/ count_cells n = 1 ->
+  (count_cells o = 0 -> size o = 0) -> (count_cells n = 0 -> size n = 0) ->
+  let e : entry := ([], 0) in
+  snd e <= count_cells o /\ snd e <= count_cells n /\
+  (snd e = count_cells n -> forall i, dn <= i < dn + size n -> cov p_dst (fst e) i) /\
+  (snd e = count_cells o -> forall i, so <= i < so + size o -> cov p_src (fst e) i).
+Proof.
+  intros o n so dn H Zo Zn e. subst e. cbn [fst snd].
+  split; [lia|]. split; [lia|]. split.
+  - intros E i Hi. rewrite Zn in Hi by auto. lia.
+  - intros E i Hi. rewrite Zo in Hi by auto. lia.
+Qed.
 
-  Lemma T_at : forall i j d, (i < length os)%nat -> (j < length ns)%nat ->
-    table_at T i j =
-    if nodes_match (nth i os d) (nth j ns d)
-    then [mkPatch (so + offs os i) (dn + offs ns j) (size (nth i os d))] else [].
-  Proof.
-    intros i j d Hi Hj. rewrite (table_at_in _ _ _ _ _ _ d Hi Hj).
-    apply leaf_bp. rewrite Forall_forall in Hos. apply Hos. now apply nth_In.
-  Qed.
+Lemma bp_cells : forall o, cells_ok o.
+Proof.
+  unfold cells_ok.
+  induction o as [l|x|x|ocs IH] using skel_ind'; intros n so dn; rewrite bp_unfold;
+    (destruct (nodes_match _ n) eqn:E;
+     [apply nodes_match_eq in E; subst n; cbn [fst snd];
+      repeat split; try lia; intros _ i Hi; eexists; (split; [left; reflexivity|]);
+      cbn [p_src p_dst p_sz]; lia|]);
+    try (apply cells_ok_nil; [left; reflexivity|discriminate|apply cells_zero_size]).
+  destruct n as [l|x|x|ncs];
+    try (apply cells_ok_nil; [right; reflexivity|apply cells_zero_size|discriminate]).
+  cbv zeta. cbn [fst snd].
+  set (T := mk_table ocs ncs so dn).
+  set (rs := lcs_by_score _ _ _).
+  assert (Hcs : StronglySorted lt2 (commons rs)) by apply lcs_sorted.
+  rewrite collect_cells_commons.
+  set (w := fun c : nat * nat => snd (table_at T (fst c) (snd c))).
+  rewrite Forall_forall in IH.
+  (* per-entry facts *)
+  assert (HW : forall c,
+             w c <= nth (fst c) (map count_cells ocs) 0 /\
+             w c <= nth (snd c) (map count_cells ncs) 0).
+  { intros [i j]. unfold w. cbn [fst snd]. subst T.
+    destruct (Nat.lt_ge_cases i (length ocs)) as [Hi|Hi];
+      [destruct (Nat.lt_ge_cases j (length ncs)) as [Hj|Hj]|];
+      try (rewrite table_at_out by lia; cbn [snd]; lia).
+    rewrite (table_at_in _ _ _ _ _ _ (Mem 0) Hi Hj).
+    rewrite (nth_map_in _ _ count_cells ocs i (Mem 0) 0 Hi).
+    rewrite (nth_map_in _ _ count_cells ncs j (Mem 0) 0 Hj).
+    destruct (IH _ (nth_In ocs (Mem 0) Hi) (nth j ncs (Mem 0)) (so + offs ocs i) (dn + offs ncs j))
+      as (U1 & U2 & _). auto. }
+  assert (Ssnd : StronglySorted (fun a b => (snd a < snd b)%nat) (commons rs)).
+  { eapply SSorted_impl; [|exact Hcs]. intros a b [_ H]. exact H. }
+  assert (Sfst : StronglySorted (fun a b => (fst a < fst b)%nat) (commons rs)).
+  { eapply SSorted_impl; [|exact Hcs]. intros a b [H _]. exact H. }
+  rewrite !count_cells_FnCall, !size_FnCall.
+  split; [|split; [|split]].
+  - destruct (tight fst w (map count_cells ocs) (commons rs) O Sfst) as [B _].
+    { intros c _. split; [lia|apply HW]. }
+    rewrite pre_0 in B. lia.
+  - destruct (tight snd w (map count_cells ncs) (commons rs) O Ssnd) as [B _].
+    { intros c _. split; [lia|apply HW]. }
+    rewrite pre_0 in B. lia.
+  - intros Eq i Hi.
+    destruct (tight_locate snd w (map count_cells ncs) (commons rs) (map size ncs) Ssnd)
+      with (x := i - dn) as (c & Hc & Wc & NZ & Bc); auto.
+    { intros c _. apply HW. }
+    { intros j Z. destruct (Nat.lt_ge_cases j (length ncs)) as [Hj|Hj].
+      - rewrite (nth_map_in _ _ count_cells ncs j (Mem 0) 0 Hj) in Z.
+        rewrite (nth_map_in _ _ size ncs j (Mem 0) 0 Hj). now apply cells_zero_size.
+      - apply nth_overflow. now rewrite map_length. }
+    { lia. }
+    destruct c as [i0 j]. cbn [fst snd] in *. unfold w in Wc. cbn [fst snd] in Wc.
+    assert (Hj : (j < length ncs)%nat).
+    { destruct (Nat.lt_ge_cases j (length ncs)); auto.
+      exfalso. apply NZ. apply nth_overflow. now rewrite map_length. }
+    assert (Hi0 : (i0 < length ocs)%nat).
+    { destruct (Nat.lt_ge_cases i0 (length ocs)); auto.
+      exfalso. apply NZ. rewrite <- Wc. subst T. rewrite table_at_out by lia. reflexivity. }
+    rewrite (nth_map_in _ _ count_cells ncs j (Mem 0) 0 Hj) in Wc.
+    rewrite pre_step, (nth_map_in _ _ size ncs j (Mem 0) 0 Hj), <- offs_pre in Bc.
+    pose proof (In_collect T rs (i0, j)) as IC. cbn [fst snd] in IC.
+    subst T. rewrite (table_at_in _ _ _ _ _ _ (Mem 0) Hi0 Hj) in Wc, IC.
+    destruct (IH _ (nth_In ocs (Mem 0) Hi0) (nth j ncs (Mem 0)) (so + offs ocs i0) (dn + offs ncs j))
+      as (_ & _ & CD & _).
+    destruct (CD Wc i ltac:(lia)) as (p & Hp & Cp).
+    exists p. split; auto. apply nodup_In. apply IC; auto.
+  - intros Eq i Hi.
+    destruct (tight_locate fst w (map count_cells ocs) (commons rs) (map size ocs) Sfst)
+      with (x := i - so) as (c & Hc & Wc & NZ & Bc); auto.
+    { intros c _. apply HW. }
+    { intros j Z. destruct (Nat.lt_ge_cases j (length ocs)) as [Hj|Hj].
+      - rewrite (nth_map_in _ _ count_cells ocs j (Mem 0) 0 Hj) in Z.
+        rewrite (nth_map_in _ _ size ocs j (Mem 0) 0 Hj). now apply cells_zero_size.
+      - apply nth_overflow. now rewrite map_length. }
+    { lia. }
+    destruct c as [i0 j]. cbn [fst snd] in *. unfold w in Wc. cbn [fst snd] in Wc.
+    assert (Hi0 : (i0 < length ocs)%nat).
+    { destruct (Nat.lt_ge_cases i0 (length ocs)); auto.
+      exfalso. apply NZ. apply nth_overflow. now rewrite map_length. }
+    assert (Hj : (j < length ncs)%nat).
+    { destruct (Nat.lt_ge_cases j (length ncs)); auto.
+      exfalso. apply NZ. rewrite <- Wc. subst T. rewrite table_at_out by lia. reflexivity. }
+    rewrite (nth_map_in _ _ count_cells ocs i0 (Mem 0) 0 Hi0) in Wc.
+    rewrite pre_step, (nth_map_in _ _ size ocs i0 (Mem 0) 0 Hi0), <- offs_pre in Bc.
+    pose proof (In_collect T rs (i0, j)) as IC. cbn [fst snd] in IC.
+    subst T. rewrite (table_at_in _ _ _ _ _ _ (Mem 0) Hi0 Hj) in Wc, IC.
+    destruct (IH _ (nth_In ocs (Mem 0) Hi0) (nth j ncs (Mem 0)) (so + offs ocs i0) (dn + offs ncs j))
+      as (_ & _ & _ & CS).
+    destruct (CS Wc i ltac:(lia)) as (p & Hp & Cp).
+    exists p. split; auto. apply nodup_In. apply IC; auto.
+Qed.
 
-  Lemma score_in : forall i j d, (i < length os)%nat -> (j < length ns)%nat ->
-    score_at scores i j = if nodes_match (nth i os d) (nth j ns d) then 1 else 0.
-  Proof.
-    intros i j d Hi Hj. rewrite score_at_table, (T_at i j d Hi Hj).
-    destruct (nodes_match _ _); reflexivity.
-  Qed.
+(* ------------------------------------------------------------------ *)
+(* lower bounds: the DP sees the matching given by an embedding        *)
 
-  Lemma dp_rec :
-    (forall j, dp_at dp 0 j = 0) /\
-    (forall i, (i <= length os)%nat -> dp_at dp i 0 = 0) /\
-    (forall i j, (i < length os)%nat -> (j < length ns)%nat ->
-       dp_at dp (S i) (S j) =
-       dpF (dp_at dp i j) (score_at scores i j) (dp_at dp i (S j)) (dp_at dp (S i) j)).
-  Proof.
-    pose proof (dp_table_rec (length ns) scores (scores_row_length os ns so dn)) as H.
-    cbv zeta in H. rewrite scores_length in H. exact H.
-  Qed.
+Local Notation Tsc os ns so dn := (map (map snd) (mk_table os ns so dn)).
 
-  Lemma dp_upper : forall i j, (i <= length os)%nat -> (j <= length ns)%nat ->
-    dp_at dp i j <= N.of_nat i /\ dp_at dp i j <= N.of_nat j.
-  Proof.
-    destruct dp_rec as (Z0 & Z1 & R).
-    induction i as [|i IHi]; intros j Hi Hj.
-    - rewrite Z0. lia.
-    - induction j as [|j IHj].
-      + rewrite Z1 by lia. lia.
-      + rewrite R by lia.
-        pose proof (IHi j ltac:(lia) ltac:(lia)).
-        pose proof (IHi (S j) ltac:(lia) ltac:(lia)).
-        pose proof (IHj ltac:(lia)).
-        rewrite (score_in i j (Mem 0)) by lia. unfold dpF.
-        destruct (nodes_match _ _); cbn [N.ltb N.compare]; lia.
-  Qed.
+Lemma rb_end' : forall m scores i j, i = length scores -> j = m -> reachb m scores i j 0.
+Proof. intros m scores i j -> ->. constructor. Qed.
 
-  Lemma dp_mono_i : forall i j, (i < length os)%nat -> (j <= length ns)%nat ->
-    dp_at dp i j <= dp_at dp (S i) j.
-  Proof.
-    destruct dp_rec as (Z0 & Z1 & R). intros i [|j] Hi Hj.
-    - rewrite !Z1 by lia. lia.
-    - rewrite R by lia. unfold dpF. destruct (0 <? _); lia.
-  Qed.
+Lemma score_mid : forall os1 o os2 ns1 n ns2 so dn,
+  score_at (Tsc (os1 ++ o :: os2) (ns1 ++ n :: ns2) so dn) (length os1) (length ns1) =
+  snd (bp o n (so + offs (os1 ++ o :: os2) (length os1))
+              (dn + offs (ns1 ++ n :: ns2) (length ns1))).
+Proof.
+  intros. rewrite score_at_table.
+  rewrite (table_at_in _ _ _ _ _ _ (Mem 0)) by (rewrite app_length; cbn [length]; lia).
+  now rewrite !nth_middle.
+Qed.
 
-  Lemma dp_mono_j : forall i j, (i <= length os)%nat -> (j < length ns)%nat ->
-    dp_at dp i j <= dp_at dp i (S j).
-  Proof.
-    destruct dp_rec as (Z0 & Z1 & R). intros [|i] j Hi Hj.
-    - rewrite !Z0. lia.
-    - rewrite R by lia. unfold dpF. destruct (0 <? _); lia.
-  Qed.
-
-  Lemma dp_diag : forall i j d, (i < length os)%nat -> (j < length ns)%nat ->
-    nodes_match (nth i os d) (nth j ns d) = true ->
-    dp_at dp i j + 1 <= dp_at dp (S i) (S j).
-  Proof.
-    destruct dp_rec as (Z0 & Z1 & R). intros i j d Hi Hj M.
-    rewrite R by lia. rewrite (score_in i j d) by lia. rewrite M.
-    unfold dpF. cbn [N.ltb N.compare]. lia.
-  Qed.
-
-  Lemma split_len : forall (l ro oss : list skel), l = rev ro ++ oss ->
-    length l = (length ro + length oss)%nat.
-  Proof. intros l ro oss ->. now rewrite app_length, rev_length. Qed.
-
-  Lemma split_cons : forall (l : list skel) x ro oss, l = rev (x :: ro) ++ oss ->
-    l = rev ro ++ x :: oss.
-  Proof. intros l x ro oss ->. cbn [rev]. now rewrite <- app_assoc. Qed.
-
-  (* lower bounds: the table sees every subsequence embedding *)
-  Lemma dp_lower_new : forall rn ro, subseq rn ro ->
-    forall oss nss, os = rev ro ++ oss -> ns = rev rn ++ nss ->
-    N.of_nat (length rn) <= dp_at dp (length ro) (length rn).
-  Proof.
-    intros rn ro H. induction H as [|a y b H IH|x a b H IH]; intros oss nss Eo En.
-    - cbn [length]. lia.
-    - apply split_cons in Eo. specialize (IH _ _ Eo En).
-      pose proof (split_len _ _ _ Eo) as Lo. pose proof (split_len _ _ _ En) as Ln.
-      cbn [length] in *.
-      pose proof (dp_mono_i (length b) (length a) ltac:(lia) ltac:(lia)). lia.
-    - apply split_cons in Eo. apply split_cons in En. specialize (IH _ _ Eo En).
-      pose proof (split_len _ _ _ Eo) as Lo. pose proof (split_len _ _ _ En) as Ln.
-      cbn [length] in *.
-      pose proof (dp_diag (length b) (length a) (Mem 0) ltac:(lia) ltac:(lia)) as D.
-      rewrite (nth_split _ _ _ _ _ Eo), (nth_split _ _ _ _ _ En) in D.
-      specialize (D (nodes_match_refl x)). lia.
-  Qed.
-
-  Lemma dp_lower_old : forall ro rn, subseq ro rn ->
-    forall oss nss, os = rev ro ++ oss -> ns = rev rn ++ nss ->
-    N.of_nat (length ro) <= dp_at dp (length ro) (length rn).
-  Proof.
-    intros ro rn H. induction H as [|a y b H IH|x a b H IH]; intros oss nss Eo En.
-    - cbn [length]. lia.
-    - apply split_cons in En. specialize (IH _ _ Eo En).
-      pose proof (split_len _ _ _ Eo) as Lo. pose proof (split_len _ _ _ En) as Ln.
-      cbn [length] in *.
-      pose proof (dp_mono_j (length a) (length b) ltac:(lia) ltac:(lia)). lia.
-    - apply split_cons in Eo. apply split_cons in En. specialize (IH _ _ Eo En).
-      pose proof (split_len _ _ _ Eo) as Lo. pose proof (split_len _ _ _ En) as Ln.
-      cbn [length] in *.
-      pose proof (dp_diag (length a) (length b) (Mem 0) ltac:(lia) ltac:(lia)) as D.
-      rewrite (nth_split _ _ _ _ _ Eo), (nth_split _ _ _ _ _ En) in D.
-      specialize (D (nodes_match_refl x)). lia.
-  Qed.
-
-  Definition W (rs : list diff_result) : N := sumN (map p_sz (collect T rs)).
-
-  Lemma W_common : forall i j acc,
-    W (Common i j :: acc) = sumN (map p_sz (table_at T i j)) + W acc.
-  Proof. intros. unfold W. cbn [collect]. now rewrite map_app, sumN_app. Qed.
-
-  Lemma W_match : forall ro rn o n oss nss acc,
-    os = rev ro ++ o :: oss -> ns = rev rn ++ n :: nss -> nodes_match o n = true ->
-    W (Common (length ro) (length rn) :: acc) = size o + W acc.
-  Proof.
-    intros ro rn o n oss nss acc Eo En M. rewrite W_common.
-    pose proof (split_len _ _ _ Eo) as Lo. pose proof (split_len _ _ _ En) as Ln.
-    cbn [length] in *.
-    rewrite (T_at (length ro) (length rn) (Mem 0)) by lia.
-    rewrite (nth_split _ _ _ _ _ Eo), (nth_split _ _ _ _ _ En), M.
-    cbn [map p_sz]. rewrite sumN_cons. cbn [sumN fold_right]. lia.
-  Qed.
-
-  Lemma score_mid : forall ro rn o n oss nss,
-    os = rev ro ++ o :: oss -> ns = rev rn ++ n :: nss ->
-    score_at scores (length ro) (length rn) = if nodes_match o n then 1 else 0.
-  Proof.
-    intros ro rn o n oss nss Eo En.
-    pose proof (split_len _ _ _ Eo) as Lo. pose proof (split_len _ _ _ En) as Ln.
-    cbn [length] in *.
-    rewrite (score_in (length ro) (length rn) (Mem 0)) by lia.
-    now rewrite (nth_split _ _ _ _ _ Eo), (nth_split _ _ _ _ _ En).
-  Qed.
-
-  (* new ⊑ old: every child of new is carried *)
-  Lemma bt_new : forall fuel ro rn oss nss acc,
-    os = rev ro ++ oss -> ns = rev rn ++ nss ->
-    (length ro + length rn <= fuel)%nat -> subseq rn ro ->
-    W (backtrack fuel scores dp (length ro) (length rn) acc) = sumN (map size rn) + W acc.
-  Proof.
-    induction fuel as [|fuel IH]; intros ro rn oss nss acc Eo En Hf Hs.
-    - destruct ro, rn; cbn [length] in Hf; try lia.
-      cbn [length backtrack map sumN fold_right]. lia.
-    - destruct ro as [|o ro], rn as [|n rn]; cbn [length backtrack].
-      + cbn [map sumN fold_right]. lia.
-      + inversion Hs.
-      + apply split_cons in Eo.
-        rewrite (IH ro [] _ nss _ Eo En) by (cbn [length] in *; try lia; apply subseq_nil_l).
-        reflexivity.
-      + apply split_cons in Eo. apply split_cons in En.
-        rewrite (score_mid _ _ _ _ _ _ Eo En).
-        cbn [length] in Hf.
-        destruct (nodes_match o n) eqn:M.
-        * change (0 <? 1) with true. cbv iota.
-          assert (Hs' : subseq rn ro).
-          { inversion Hs; subst; auto. eapply subseq_cons_l; eauto. }
-          rewrite (IH ro rn _ _ _ Eo En) by (auto; lia).
-          rewrite (W_match _ _ _ _ _ _ _ Eo En M).
-          apply nodes_match_eq in M. subst n.
-          cbn [map]. rewrite sumN_cons. lia.
-        * change (0 <? 0) with false. cbv iota.
-          assert (Hs' : subseq (n :: rn) ro).
-          { inversion Hs; subst; auto. rewrite nodes_match_refl in M. discriminate. }
-          pose proof (split_len _ _ _ Eo) as Lo. pose proof (split_len _ _ _ En) as Ln.
-          cbn [length] in *.
-          pose proof (dp_lower_new _ _ Hs' (o :: oss) nss Eo
-                        ltac:(rewrite En; cbn [rev]; now rewrite <- app_assoc)) as LB.
-          pose proof (dp_upper (S (length ro)) (length rn) ltac:(lia) ltac:(lia)) as [_ UB].
-          cbn [length] in LB.
-          destruct (N.ltb_spec (dp_at dp (S (length ro)) (length rn))
-                               (dp_at dp (length ro) (S (length rn)))) as [_|C]; [|lia].
-          change (S (length rn)) with (length (n :: rn)).
-          rewrite (IH ro (n :: rn) (o :: oss) nss _ Eo) ; auto.
-          -- rewrite En. cbn [rev]. now rewrite <- app_assoc.
-          -- cbn [length]. lia.
-  Qed.
-
-  (* old ⊑ new: every child of old is carried *)
-  Lemma bt_old : forall fuel ro rn oss nss acc,
-    os = rev ro ++ oss -> ns = rev rn ++ nss ->
-    (length ro + length rn <= fuel)%nat -> subseq ro rn ->
-    W (backtrack fuel scores dp (length ro) (length rn) acc) = sumN (map size ro) + W acc.
-  Proof.
-    induction fuel as [|fuel IH]; intros ro rn oss nss acc Eo En Hf Hs.
-    - destruct ro, rn; cbn [length] in Hf; try lia.
-      cbn [length backtrack map sumN fold_right]. lia.
-    - destruct ro as [|o ro], rn as [|n rn]; cbn [length backtrack].
-      + cbn [map sumN fold_right]. lia.
-      + apply split_cons in En.
-        rewrite (IH [] rn oss _ _ Eo En) by (cbn [length] in *; try lia; apply subseq_nil_l).
-        reflexivity.
-      + inversion Hs.
-      + apply split_cons in Eo. apply split_cons in En.
-        rewrite (score_mid _ _ _ _ _ _ Eo En).
-        cbn [length] in Hf.
-        destruct (nodes_match o n) eqn:M.
-        * change (0 <? 1) with true. cbv iota.
-          assert (Hs' : subseq ro rn).
-          { inversion Hs; subst; auto. eapply subseq_cons_l; eauto. }
-          rewrite (IH ro rn _ _ _ Eo En) by (auto; lia).
-          rewrite (W_match _ _ _ _ _ _ _ Eo En M).
-          cbn [map]. rewrite sumN_cons. lia.
-        * change (0 <? 0) with false. cbv iota.
-          assert (Hs' : subseq (o :: ro) rn).
-          { inversion Hs; subst; auto. rewrite nodes_match_refl in M. discriminate. }
-          pose proof (split_len _ _ _ Eo) as Lo. pose proof (split_len _ _ _ En) as Ln.
-          cbn [length] in *.
-          pose proof (dp_lower_old _ _ Hs' oss (n :: nss)
-                        ltac:(rewrite Eo; cbn [rev]; now rewrite <- app_assoc) En) as LB.
-          pose proof (dp_upper (length ro) (S (length rn)) ltac:(lia) ltac:(lia)) as [UB _].
-          cbn [length] in LB.
-          destruct (N.ltb_spec (dp_at dp (S (length ro)) (length rn))
-                               (dp_at dp (length ro) (S (length rn)))) as [C|_]; [lia|].
-          change (S (length ro)) with (length (o :: ro)).
-          rewrite (IH (o :: ro) rn oss (n :: nss) _) ; auto.
-          -- rewrite Eo. cbn [rev]. now rewrite <- app_assoc.
-          -- cbn [length]. lia.
-  Qed.
-
-  Lemma flat_new : subseq ns os ->
-    W (lcs_by_score (length os) (length ns) scores) = sumN (map size ns).
-  Proof.
-    intros H. unfold lcs_by_score.
-    pose proof (bt_new (length os + length ns) (rev os) (rev ns) [] [] []) as B.
-    rewrite !rev_involutive, !app_nil_r, !rev_length in B.
-    rewrite B; auto using subseq_rev. rewrite sum_size_rev. unfold W. cbn. lia.
-  Qed.
-
-  Lemma flat_old : subseq os ns ->
-    W (lcs_by_score (length os) (length ns) scores) = sumN (map size os).
-  Proof.
-    intros H. unfold lcs_by_score.
-    pose proof (bt_old (length os + length ns) (rev os) (rev ns) [] [] []) as B.
-    rewrite !rev_involutive, !app_nil_r, !rev_length in B.
-    rewrite B; auto using subseq_rev. rewrite sum_size_rev. unfold W. cbn. lia.
-  Qed.
-End Flat.
-
-Lemma bp_flat_sum : forall os ns,
+Lemma cells_of_call : forall os ns so dn,
   nodes_match (FnCall os) (FnCall ns) = false ->
-  sumN (map p_sz (bp (FnCall os) (FnCall ns) 0 0)) =
-  W os ns 0 0 (lcs_by_score (length os) (length ns) (map (map score_of) (mk_table os ns 0 0))).
+  snd (bp (FnCall os) (FnCall ns) so dn) =
+  dp_at (dp_table (length ns) (Tsc os ns so dn)) (length os) (length ns).
 Proof.
-  intros os ns M. rewrite bp_unfold, M. cbv zeta. unfold W.
-  apply sum_nodup_sorted. apply collect_sorted.
+  intros os ns so dn E. rewrite bp_unfold, E. cbv zeta. cbn [snd].
+  rewrite collect_cells_csum.
+  pose proof (lcs_csum (length ns) _ (scores_row_length os ns so dn)) as L.
+  rewrite scores_length in L. exact L.
 Qed.
 
-Theorem survivors_flat : forall os ns : list skel,
-  Forall is_leaf os -> Forall is_leaf ns ->
-  forall total ps, plan (FnCall os) (FnCall ns) = Some (total, ps) ->
-    (embeds (FnCall ns) (FnCall os) -> sumN (map p_sz ps) = size (FnCall ns)) /\
-    (embeds (FnCall os) (FnCall ns) -> sumN (map p_sz ps) = size (FnCall os)).
+Lemma reachb_bound : forall os ns so dn v,
+  reachb (length ns) (Tsc os ns so dn) 0 0 v ->
+  v <= dp_at (dp_table (length ns) (Tsc os ns so dn)) (length os) (length ns).
 Proof.
-  intros os ns Lo Ln total ps HP.
-  unfold plan in HP. destruct (skel_eqb _ _); [discriminate|].
-  injection HP as <- <-. unfold take_diff.
-  destruct (nodes_match (FnCall os) (FnCall ns)) eqn:M.
-  - rewrite bp_unfold, M. apply nodes_match_eq in M. rewrite <- M.
-    cbn [map sumN fold_right p_sz]. split; intros _; lia.
-  - rewrite (bp_flat_sum os ns M). rewrite !size_FnCall. split; intros H.
-    + apply flat_new; auto. apply embeds_call_subseq; auto.
-    + apply flat_old; auto. apply embeds_call_subseq; auto.
+  intros os ns so dn v R.
+  pose proof (dp_ge_reachb _ _ (scores_row_length os ns so dn) _ _ _ R) as D.
+  rewrite scores_length in D. lia.
+Qed.
+
+Lemma lower_new : forall n o, embeds n o ->
+  forall so dn, count_cells n <= snd (bp o n so dn).
+Proof.
+  apply (embeds_mind
+    (fun n o => forall so dn, count_cells n <= snd (bp o n so dn))
+    (fun ns' os' => forall os1 ns1 so dn,
+       exists v, reachb (length (ns1 ++ ns')) (Tsc (os1 ++ os') (ns1 ++ ns') so dn)
+                        (length os1) (length ns1) v /\
+                 sumN (map count_cells ns') <= v)).
+  - intros s so dn. rewrite bp_unfold, nodes_match_refl. cbn [snd]. lia.
+  - intros ns os _ IH so dn. destruct (nodes_match (FnCall os) (FnCall ns)) eqn:E.
+    + rewrite bp_unfold, E. apply nodes_match_eq in E. rewrite E. cbn [snd]. lia.
+    + rewrite (cells_of_call _ _ _ _ E).
+      destruct (IH [] [] so dn) as (v & R & B). cbn [app length] in R.
+      apply reachb_bound in R. rewrite count_cells_FnCall. lia.
+  - intros os1 ns1 so dn. exists 0. split; [|cbn; lia].
+    apply rb_end'; rewrite ?scores_length, !app_nil_r; reflexivity.
+  - intros ns' o os'' _ IH os1 ns1 so dn.
+    destruct (IH (os1 ++ [o]) ns1 so dn) as (v & R & B).
+    rewrite <- app_assoc in R. cbn [app] in R.
+    rewrite (app_length os1 [o]) in R. cbn [length] in R. rewrite Nat.add_1_r in R.
+    exists v. split; auto. apply rb_del; auto.
+    + rewrite scores_length, app_length. cbn [length]. lia.
+    + rewrite app_length. lia.
+  - intros n o ns'' os'' _ IHe _ IH os1 ns1 so dn.
+    destruct (IH (os1 ++ [o]) (ns1 ++ [n]) so dn) as (v & R & B).
+    rewrite <- !app_assoc in R. cbn [app] in R.
+    rewrite (app_length os1 [o]), (app_length ns1 [n]) in R. cbn [length] in R.
+    rewrite !Nat.add_1_r in R.
+    eexists. split.
+    + apply rb_com; [| |exact R].
+      * rewrite scores_length, app_length. cbn [length]. lia.
+      * rewrite app_length. cbn [length]. lia.
+    + rewrite score_mid. cbn [map]. rewrite sumN_cons.
+      specialize (IHe (so + offs (os1 ++ o :: os'') (length os1))
+                      (dn + offs (ns1 ++ n :: ns'') (length ns1))). lia.
+Qed.
+
+Lemma lower_old : forall o n, embeds o n ->
+  forall so dn, count_cells o <= snd (bp o n so dn).
+Proof.
+  apply (embeds_mind
+    (fun o n => forall so dn, count_cells o <= snd (bp o n so dn))
+    (fun os' ns' => forall os1 ns1 so dn,
+       exists v, reachb (length (ns1 ++ ns')) (Tsc (os1 ++ os') (ns1 ++ ns') so dn)
+                        (length os1) (length ns1) v /\
+                 sumN (map count_cells os') <= v)).
+  - intros s so dn. rewrite bp_unfold, nodes_match_refl. cbn [snd]. lia.
+  - intros os ns _ IH so dn. destruct (nodes_match (FnCall os) (FnCall ns)) eqn:E.
+    + rewrite bp_unfold, E. cbn [snd]. lia.
+    + rewrite (cells_of_call _ _ _ _ E).
+      destruct (IH [] [] so dn) as (v & R & B). cbn [app length] in R.
+      apply reachb_bound in R. rewrite count_cells_FnCall. lia.
+  - intros os1 ns1 so dn. exists 0. split; [|cbn; lia].
+    apply rb_end'; rewrite ?scores_length, !app_nil_r; reflexivity.
+  - intros os' n ns'' _ IH os1 ns1 so dn.
+    destruct (IH os1 (ns1 ++ [n]) so dn) as (v & R & B).
+    rewrite <- app_assoc in R. cbn [app] in R.
+    rewrite (app_length ns1 [n]) in R. cbn [length] in R. rewrite Nat.add_1_r in R.
+    exists v. split; auto. apply rb_ins; auto.
+    + rewrite scores_length, app_length. lia.
+    + rewrite app_length. cbn [length]. lia.
+  - intros o n os'' ns'' _ IHe _ IH os1 ns1 so dn.
+    destruct (IH (os1 ++ [o]) (ns1 ++ [n]) so dn) as (v & R & B).
+    rewrite <- !app_assoc in R. cbn [app] in R.
+    rewrite (app_length os1 [o]), (app_length ns1 [n]) in R. cbn [length] in R.
+    rewrite !Nat.add_1_r in R.
+    eexists. split.
+    + apply rb_com; [| |exact R].
+      * rewrite scores_length, app_length. cbn [length]. lia.
+      * rewrite app_length. cbn [length]. lia.
+    + rewrite score_mid. cbn [map]. rewrite sumN_cons.
+      specialize (IHe (so + offs (os1 ++ o :: os'') (length os1))
+                      (dn + offs (ns1 ++ n :: ns'') (length ns1))). lia.
+Qed.
+
+(* ------------------------------------------------------------------ *)
+(* the survivors clause                                                *)
+
+Lemma survivors : forall (o n : skel) (total : N) (ps : list patch),
+  plan o n = Some (total, ps) ->
+  (embeds n o -> forall i, i < size n -> exists p, In p ps /\ p_dst p <= i < p_dst p + p_sz p) /\
+  (embeds o n -> forall i, i < size o -> exists p, In p ps /\ p_src p <= i < p_src p + p_sz p).
+Proof.
+  intros o n total ps HP. apply plan_inv in HP as [-> ->]. unfold take_diff.
+  destruct (bp_cells o n 0 0) as (U1 & U2 & CD & CS).
+  split; intros HE i Hi.
+  - pose proof (lower_new n o HE 0 0). exact (CD ltac:(lia) i ltac:(lia)).
+  - pose proof (lower_old o n HE 0 0). exact (CS ltac:(lia) i ltac:(lia)).
+Qed.
+
+Lemma survivors_count : forall (o n : skel) (total : N) (ps : list patch),
+  plan o n = Some (total, ps) ->
+  (embeds n o -> sumN (map p_sz ps) = size n) /\
+  (embeds o n -> sumN (map p_sz ps) = size o).
+Proof.
+  intros o n total ps HP. destruct (survivors o n total ps HP) as [S1 S2].
+  apply plan_inv in HP as [-> ->].
+  pose proof (take_diff_sorted o n) as HS.
+  assert (Bd : forall p q, before p q -> p_dst p + p_sz p <= p_dst q) by (intros p q [_ H]; exact H).
+  assert (Bs : forall p q, before p q -> p_src p + p_sz p <= p_src q) by (intros p q [H _]; exact H).
+  split; intros HE.
+  - pose proof (sum_le_range p_dst Bd (take_diff o n) 0 (size n) HS ltac:(lia)) as U.
+    pose proof (sum_ge_cover p_dst Bd (take_diff o n) 0 (size n) HS) as L.
+    assert (sumN (map p_sz (take_diff o n)) + 0 <= size n).
+    { apply U. intros p Hp. apply take_diff_in_bounds in Hp. lia. }
+    assert (size n <= sumN (map p_sz (take_diff o n)) + 0).
+    { apply L. intros i Hi. apply (S1 HE). lia. }
+    lia.
+  - pose proof (sum_le_range p_src Bs (take_diff o n) 0 (size o) HS ltac:(lia)) as U.
+    pose proof (sum_ge_cover p_src Bs (take_diff o n) 0 (size o) HS) as L.
+    assert (sumN (map p_sz (take_diff o n)) + 0 <= size o).
+    { apply U. intros p Hp. apply take_diff_in_bounds in Hp. lia. }
+    assert (size o <= sumN (map p_sz (take_diff o n)) + 0).
+    { apply L. intros i Hi. apply (S2 HE). lia. }
+    lia.
 Qed.
